@@ -20,7 +20,9 @@ RULE = ("Hypothesis draws physically meaningful parameter sets and true temperat
         "adjustment and initial bridge voltage - and fed to the scaling class directly and through a generated TDMS file "
         "(float64 and float32/integer raw data where meaningful). The result must equal the generating quantity within "
         "1e-6 * max(|x|, 1 K resp. 1e-6 strain). Polynomial and table scalings are compared with Horner and clamped "
-        "interpolation. Non-trivial: lead resistance > 0, or T < 0 degC, or initial voltage != 0, or gain != 1.")
+        "interpolation. Non-trivial: lead resistance > 0, or T < 0 degC, or initial voltage != 0, or gain != 1."
+        ' Through files the sensor scale may be fed by Linear scales (input source 0 or 1, power-of-two slopes so that '
+        'the pre-image is exact) instead of the raw data.')
 ASSUMPTIONS = [
     "RTD coefficients within +-5 % of the IEC 60751 values, so the quartic has a single negative real root",
     "voltage-excitation thermistor in 2-wire configuration only with zero lead resistance (compensation rule not documented)",
